@@ -216,7 +216,38 @@ def check_c10(tier, seed, replay=None):
     return v.finish(cov, ['lines shorter than the 1024-byte buffer (the property\'s domain)'])
 
 
-CHECKS = {'C01': check_c01, 'C02': check_c02, 'C05': check_c05, 'C06': check_c06, 'C08': check_c08, 'C09': check_c09, 'C10': check_c10,
+TSAN_ENV = {'TSAN_OPTIONS': 'halt_on_error=0:exitcode=0:report_signal_unsafe=0:history_size=4'}
+
+
+def check_c03(tier, seed, replay=None):
+    v = Verdict('C03', tier, seed)
+    bins = build_many([('h_sched', 'shim'), ('h_sched', 'tsan'), ('h_sched', 'plain')])
+    # functional half: deterministic injected schedules
+    agg = run_cases(bins[('h_sched', 'shim')], 'c03', seed, T(tier, 300, 5000), opts=dict(max_n=T(tier, 22, 40), schedules=T(tier, 4, 16)), timeout=1800)
+    v.absorb(agg)
+    # race half: real threads under ThreadSanitizer, different seeds because reports vary from run to run
+    aggt = lib.Agg()
+    for rep in range(T(tier, 1, 3)):
+        run_cases(bins[('h_sched', 'tsan')], 'c03t', seed + 7919 * (rep + 1), T(tier, 64, 500), opts=dict(max_n=T(tier, 16, 22), schedules=T(tier, 2, 3)), env=TSAN_ENV, timeout=3600, source='h_sched(tsan):c03t', agg=aggt, chunk=T(tier, 2, 8))
+    v.absorb(aggt)
+    # production scheduler, functional verdicts only
+    aggr = run_cases(bins[('h_sched', 'plain')], 'c03real', seed + 31337, T(tier, 100, 2000), opts=dict(max_n=T(tier, 26, 40), schedules=3), timeout=1800, source='h_sched(oneTBB):c03real')
+    v.absorb(aggr)
+    races = [r for r in aggt.sanitizer_reports if r['kind'].startswith('tsan')]
+    cov = base_coverage(agg, 'generated graphs (cycle space dimension 2..~120), six TBB entry points (exact: signed/fvs/iso; approximate with k in 1..3), several independently drawn schedules per (graph, entry): '
+                        'random legal partition of every range, random grouping of consecutive leaves into accumulation runs seeded with the identity, random execution order, random order-preserving join tree, '
+                        'random interleaving of concurrent push_backs; functional oracle = basis validity + returned == emitted + optimum (exact) / (2k-1) bound (approx) + agreement with the sequential variant; '
+                        'non-trivial = cycle space dimension >= 2; distinct by canonical graph hash',
+                        dict(serial_shim=dict(agg.summary), threaded_tsan=dict(evaluations=aggt.evaluations, distinct_nontrivial=len(aggt.hashes), tsan_reports_total=len(races),
+                             tsan_reports_with_parmcb_frame=len([r for r in races if r.get('parmcb_frame')]), **{k: aggt.summary.get(k, 0) for k in ('executions', 'regions', 'leaves', 'runs', 'joins', 'distinct_schedule_shapes', 'concurrent_push_backs')}),
+                             real_onetbb=dict(evaluations=aggr.evaluations, executions=aggr.summary.get('executions', 0), limits=[1, 2, 4, 16]),
+                             distinct_schedule_shapes=agg.summary.get('distinct_schedule_shapes', 0), regions=agg.summary.get('regions', 0),
+                             joins_combining_two_nonidentity_values=agg.summary.get('joins_nonidentity_nonidentity', 0)))
+    return v.finish(cov, ['the shim implements the documented execution space of parallel_for / parallel_reduce / concurrent_vector, not oneTBB\'s implementation',
+                          'ThreadSanitizer sees every synchronisation of the shim (std::thread create/join, atomics); races needing weak hardware ordering are outside its model'])
+
+
+CHECKS = {'C01': check_c01, 'C02': check_c02, 'C03': check_c03, 'C05': check_c05, 'C06': check_c06, 'C08': check_c08, 'C09': check_c09, 'C10': check_c10,
           'C12': check_c12, 'C13': check_c13, 'C14': check_c14, 'C15': check_c15, 'C16': check_c16, 'C17': check_c17, 'C18': check_c18}
 
 
@@ -250,7 +281,8 @@ def main():
 
 
 ALL_BUILDS = [('h_exact', 'plain'), ('h_exact', 'asan'), ('h_approx', 'plain'), ('h_approx', 'asan'), ('h_parts', 'plain'), ('h_parts', 'asan'),
-              ('h_vec', 'plain'), ('h_vec', 'asan'), ('h_dimacs', 'plain'), ('h_dimacs', 'asan')]
+              ('h_vec', 'plain'), ('h_vec', 'asan'), ('h_dimacs', 'plain'), ('h_dimacs', 'asan'),
+              ('h_sched', 'shim'), ('h_sched', 'tsan'), ('h_sched', 'plain')]
 
 
 def build_all():
